@@ -9,6 +9,8 @@ import (
 	"net/http"
 	"net/http/httptest"
 	"strings"
+	"sync"
+	"time"
 
 	apayment "github.com/my-cloud/ruthenium/accessnode/presentation/api/payment"
 	awallet "github.com/my-cloud/ruthenium/accessnode/presentation/api/wallet"
@@ -88,7 +90,93 @@ func walletWorld(r *Rng, set *Settings, values []uint64, yieldingFirst bool) (*W
 	return w, owner
 }
 
+// postProbe: two wallets post a transaction each to one access node at the same moment; the
+// transport of the first is slow to read the bytes it was handed. The validator must be sent both
+// transactions, each with its own content.
+func postProbe(id string, out *Out, stats *Stats) {
+	r := NewRng(99)
+	set := pickSettings(r)
+	w := &World{r: r, set: set, stats: NewStats(), mode: "honest"}
+	for k := 0; k < 5; k++ {
+		w.wallets = append(w.wallets, NewWallet(k))
+	}
+	w.now = t0 - (t0 % set.Interval)
+	// (the first is the longer one: a transport that still holds its bytes would see them overwritten)
+	tx1 := w.build(&txPlan{ins: []spendable{{"aa", 0, 10, w.wallets[1]}}, outs: []*JOutput{{w.wallets[2].Addr, false, 1}, {w.wallets[1].Addr, false, 4}, {w.wallets[3].Addr, true, 5}}, ts: w.now})
+	tx2 := w.build(&txPlan{ins: []spendable{{"bb", 1, 10, w.wallets[2]}}, outs: []*JOutput{{w.wallets[3].Addr, false, 2}}, ts: w.now + 1})
+	firstHeld := make(chan struct{})
+	release := make(chan struct{})
+	var mu sync.Mutex
+	var got []string
+	calls := 0
+	sender := &FakeSender{target: "10.7.0.1:10600"}
+	sender.addTx = func(b []byte) error {
+		mu.Lock()
+		calls++
+		first := calls == 1
+		mu.Unlock()
+		if first {
+			close(firstHeld)
+			<-release // a slow connection: the bytes are read only now
+		}
+		mu.Lock()
+		got = append(got, string(b))
+		mu.Unlock()
+		return nil
+	}
+	ctl := apayment.NewTransactionController(sender, &CapLogger{})
+	done := make(chan int, 2)
+	go func() {
+		rec := httptest.NewRecorder()
+		ctl.PostTransaction(rec, httptest.NewRequest("POST", "/transaction", bytes.NewReader(mustJSON(tx1))))
+		done <- rec.Code
+	}()
+	select {
+	case <-firstHeld:
+	case <-time.After(2 * time.Second):
+		stats.Count("post-probe/unavailable")
+		return
+	}
+	go func() {
+		rec := httptest.NewRecorder()
+		ctl.PostTransaction(rec, httptest.NewRequest("POST", "/transaction", bytes.NewReader(mustJSON(tx2))))
+		done <- rec.Code
+	}()
+	select {
+	case <-done: // the second post went through while the first is still being sent
+	case <-time.After(300 * time.Millisecond): // or it waits for the first: let the first go on
+	}
+	close(release)
+	for k := 0; k < 2; k++ {
+		select {
+		case <-done:
+		case <-time.After(2 * time.Second):
+		}
+		if len(done) == 0 && k == 0 {
+			continue
+		}
+	}
+	time.Sleep(5 * time.Millisecond)
+	mu.Lock()
+	defer mu.Unlock()
+	has := func(t *ledger.Transaction) bool {
+		for _, g := range got {
+			if strings.Contains(g, t.Id()) && strings.Contains(g, string(mustJSON(t))) {
+				return true
+			}
+		}
+		return false
+	}
+	if len(got) != 2 || !has(tx1) || !has(tx2) {
+		out.Violation("C16", id, fmt.Sprintf("post-lost\ttwo transactions posted to the access node at the same moment: the validator was sent %d messages; first transaction sent intact: %v, second: %v", len(got), has(tx1), has(tx2)))
+		out.Violation("C18", id, fmt.Sprintf("post-lost\ta posted transaction answered 201 did not reach the validator with its own content (concurrent posts)"))
+	}
+	stats.Count("post-probe")
+}
+
 func runWalletSuite(seed uint64, n int, out *Out, stats *Stats) {
+	watchProbe("C18", fmt.Sprintf("wl%d_watch", seed), out, stats)
+	postProbe(fmt.Sprintf("wl%d_post", seed), out, stats)
 	for i := 0; i < n; i++ {
 		id := fmt.Sprintf("wl%d_%d", seed, i)
 		r := NewRng(seed*32452843 + uint64(i))
